@@ -8,6 +8,7 @@ ops (macro ops executed by `harness/hcore/src/bin/timers.rs` at quiescent points
   `sa <p>` `si <p>` `ea <p>` `ka <p>`   send_after / send_interval / exit_after / kill_after, period p µs
   `dsa <p>` `dsi <p>` `dea <p>` `dka <p>`   the same four through a `DerivedActorRef` (same model steps)
   `csa <p>` `csi <p>` `cea <p>` `cka <p>`   the free functions `ractor::time::*` called with the target's `ActorCell`
+  `xsa <p>` `xsi <p>`             the free functions send_after / send_interval with a message type that is not the target's
   `adv <d>`                       tokio::time::advance(d µs), run to quiescence   (every time and duration is in µs)
   `advabort <d> <i>`              clock += d, abort timer i before the time driver runs
   `advstop <d>` `advkill <d>` `advdrain <d>`   clock += d, then the API call on the target
@@ -34,6 +35,7 @@ def showRes : Res → String
 def parseRes? : String → Option Res
   | "P" => some .pending | "ok" => some .ok | "err" => some .err | "cancelled" => some .cancelled
   | "panic" => some .panicked
+  | "err:InvalidActorType" => some .err
   | _ => none
 
 /-- what the owner of timer `i`'s handle can read: the task's answer, or — once the `JoinHandle` is
@@ -84,7 +86,10 @@ def observe (old new : State) : String :=
   let att := newAttempts old.timers new.timers
   let hd := new.target.handled.drop old.target.handled.length
   let res := if new.timers.isEmpty then "-" else ",".intercalate (new.timers.zipIdx.map fun (τ, i) =>
-    showHObs (if new.dropped.contains i then .dropped (τ.res != .pending) else .res τ.res))
+    if new.dropped.contains i then showHObs (.dropped (τ.res != .pending))
+    -- the wrong message type: `MessagingErr::InvalidActorType` (not `SendErr`)
+    else if !τ.typed && τ.res == .err then "err:InvalidActorType"
+    else showRes τ.res)
   s!"t={new.now} att={showEvs att} hd={showEvs hd} res={res} tgt={showTarget new.target}"
 
 def parseMOp? (ws : List String) : Option MOp :=
@@ -104,6 +109,9 @@ def parseMOp? (ws : List String) : Option MOp :=
   | ["csi", p] => p.toNat?.map (MOp.create .interval)
   | ["cea", p] => p.toNat?.map (MOp.create .exitAfter)
   | ["cka", p] => p.toNat?.map (MOp.create .killAfter)
+  -- ... with a message type that is not the target's
+  | ["xsa", p] => p.toNat?.map (MOp.createX .sendAfter)
+  | ["xsi", p] => p.toNat?.map (MOp.createX .interval)
   | ["adv", d] => d.toNat?.map MOp.adv
   | ["advabort", d, i] => do pure (MOp.advAbort (← d.toNat?) (← i.toNat?))
   | ["advstop", d] => d.toNat?.map MOp.advStop
@@ -169,6 +177,7 @@ def absorb (v : State) (mop : MOp) (o : ImplObs) : State × List String := Id.ru
   -- a creation op adds a timer created at the observed clock value
   match mop with
   | .create k p => timers := timers ++ [{ kind := k, period := p, created := o.t, armed := some o.t }]
+  | .createX k p => timers := timers ++ [{ kind := k, period := p, created := o.t, armed := some o.t, typed := false }]
   | _ => pure ()
   -- attempts (message builder calls), in order of k
   let att := o.att.toArray.qsort (fun x y => x.1 < y.1 || (x.1 == y.1 && x.2.1 < y.2.1))
@@ -202,6 +211,7 @@ def absorb (v : State) (mop : MOp) (o : ImplObs) : State × List String := Id.ru
           if τ.res != .pending then τ.res
           else if aborted == some i then .cancelled
           else if τ.kind == .interval && τ.period == 0 then .panicked
+          else if τ.kind == .sendAfter && !τ.typed then .err
           else if τ.kind == .sendAfter then
             (match closeNow, τ.sentAt.getLast? with
              | some tc, some t => if tc < t then .err else .ok
